@@ -231,7 +231,8 @@ class World:
         """-> event dict for the trace: symbolic advertisement, translated listener calls, state numbers"""
         mfr = self.concretise(a, bit, trunc)
         self.sent.append(mfr)
-        calls, exc = self.feed_raw(a["to"], mfr)
+        # received from the BLE address on record for a["from"] (A / B: the pairing's AccessoryAddress; X: unrelated)
+        calls, exc = self.feed_raw(a.get("from", a["to"]), mfr)
         dele = []
         for name, ev in calls:
             if not isinstance(ev, dict) or not ev:
